@@ -14,6 +14,9 @@ CLAIMED = {
  "C03": ("crash monitor: recovered-panic oracle + child-death attribution via a crash-surviving intent slot; thorough tier repeats the data workloads under the race detector (checkptr)",
          "Hostile expression bytes (exhaustive truncations of the corpus, random bytes/tokens, token mutants, 1 MiB flat inputs, 20 recursive constructs nested to 1e5/3e5 and 4e6) and hostile Go data (every numeric kind incl. NaN/Inf, odd json.Number texts, decimal specials, typed nils, foreign values, invalid UTF-8 in every argument position of every builtin and operator) are driven through Search, Compile and Expression.Search in child processes; every returned error is formatted; panics and process deaths are violations.",
          "A death is attributed to the last intent record; address space capped at 4 GiB per child; wall-clock watchdog firings are 'not judged'. Known finding: pad widths beyond memory (known_findings.json).", "§6 C03"),
+ "C04": ("reference-recogniser monitor over exhaustive whitespace-gap and single-token-edit neighbourhoods",
+         "Compile's verdict on every text is compared with two independent recognisers (STRICT must compile / LENIENT-rejected must fail with a syntax error, or with a static function fault when a call precedes the error); the texts are every token gap of a base set filled with 5 whitespace strings, the complete single-token-edit neighbourhood of that base set (45 token kinds), hand-written member/non-member lists, generated members in hostile spellings and generated/corrupted JSON literal texts. A non-member that compiles is reported with what it evaluated to.",
+         "Texts between STRICT and LENIENT (whitespace inside [*]/[]/[?, let/in as identifiers, >64-bit integers, lone surrogates, raw control characters in quoted identifiers, multi-select directly after a projection) are not judged.", "§6 C04"),
 }
 
 ALL = ["C%02d" % i for i in range(1, 21)]
